@@ -43,6 +43,11 @@ CHECKS = {
          "For every history (every prefix is a history of its own) all of IsExist/IsFile/IsDir/ReadFile/Reader/ReadDir/Lstat on 18 overlapping paths, on the cache and on child views of it, must answer like the overlay model (remote + pending successful operations). The cache's missing tombstones are recorded as known findings by root cause (trigger must be present in the history for the very path), everything else is reported.",
          "Overlay model as in C06; the root-cause matchers are predicates over the history, not over the symptom alone.",
          "DESIGN.md 3/C07"),
+ "C17": ("exploration",
+         "exhaustive enumeration of ALL byte strings up to length 7 (quick) / 9 (thorough) over the 9-symbol alphabet of significant bytes, and of all rendered argument lists (<=3 arguments, 12-entry pool, 3 quoting forms, 4 separators)",
+         "Totality is checked on every string; strings without quote/backslash/heredoc against a plain-word reference (per-line fields byte-for-byte, eof flags, exact stop at the newline); strings whose backslashes precede a letter or a continuation newline against the argument-count reference; every rendered list must split back to the original list and leave the next command for the next call; InjectArgs mapping is checked on every list.",
+         "Length bound as stated (no random part claimed); content of words containing a bare backslash is unspecified by the statement and only counted.",
+         "DESIGN.md 3/C17"),
  "C08": ("model_checking",
          "stateless preemption-bounded DFS over all schedules of the real fsloop/jobsync code under a controlled scheduler (vsched), fair-yield rule, per-program bounds",
          "Every schedule (up to the stated preemption bound, 2-3 for small programs) of the real producer/consumer/completion goroutines is executed for a family of trees, filters, worker limits, channel capacities and injected failures; oracle = multiset of callback arguments, concurrency high-water mark, callbacks after Wait, error list. Found the lost-item window on the pinned tree (fixed).",
